@@ -34,11 +34,26 @@ type req struct {
 	body    int
 }
 
-func (r req) closes() bool {
-	if r.v10 {
-		return r.connHdr != "keep-alive"
+// connHdr may hold several header lines separated by '|', each a comma-separated option list
+// (RFC 7230 3.2.2 / 6.1): the decision depends on the options of all lines together.
+func (r req) options() map[string]bool {
+	o := map[string]bool{}
+	for _, line := range strings.Split(r.connHdr, "|") {
+		for _, t := range strings.Split(line, ",") {
+			if t = strings.ToLower(strings.TrimSpace(t)); t != "" {
+				o[t] = true
+			}
+		}
 	}
-	return r.connHdr == "close"
+	return o
+}
+
+func (r req) closes() bool {
+	o := r.options()
+	if r.v10 {
+		return o["close"] || !o["keep-alive"]
+	}
+	return o["close"]
 }
 
 func (r req) String() string {
@@ -93,7 +108,9 @@ func encode(connID int, rs []req) []byte {
 		}
 		fmt.Fprintf(&b, "%s /c%d/r%d %s\r\nHost: h\r\nX-Tag: c%dr%d\r\n", m, connID, i, v, connID, i)
 		if r.connHdr != "" {
-			fmt.Fprintf(&b, "Connection: %s\r\n", r.connHdr)
+			for _, line := range strings.Split(r.connHdr, "|") {
+				fmt.Fprintf(&b, "Connection: %s\r\n", line)
+			}
 		}
 		if r.body > 0 {
 			fmt.Fprintf(&b, "Content-Length: %d\r\n", r.body)
@@ -324,6 +341,9 @@ func build(tier string) []*vkit.Scenario {
 		{{ka}}, {{cl}}, {{v10}}, {{v10ka}}, {{post}}, {{postcl}},
 		{{ka, ka}}, {{ka, cl}}, {{post, ka, cl}}, {{v10ka, v10}}, {{cl, ka}},
 		{{ka, post}, {post, cl}}, {{ka}, {v10}},
+		// the decisive option is not on the first Connection line / not the first of a list
+		{{req{connHdr: "keep-alive|close"}, ka}}, {{req{connHdr: "TE|close"}}}, {{req{v10: true, connHdr: "TE|keep-alive"}, v10}},
+		{{req{connHdr: "keep-alive, close"}, ka}}, {{req{connHdr: "Upgrade|keep-alive"}, cl}},
 	}
 	for _, m := range ekit.Modes {
 		for _, e := range []string{"inline", "go", "pool"} {
@@ -347,6 +367,9 @@ func build(tier string) []*vkit.Scenario {
 					if e == "pool" && hi != 0 && hi != 1 && hi != 7 && hi != 12 {
 						continue
 					}
+					if hi >= 13 && (e != "go" || m != ekit.LT) {
+						continue
+					}
 				}
 				for _, rl := range []int{10, 70000} {
 					ks := []int{1 << 20}
@@ -368,6 +391,8 @@ func build(tier string) []*vkit.Scenario {
 							}
 							if (rl == 70000 && k == 4096) || (two && e == "pool") {
 								p--
+							} else if !thorough && hi == 11 && m != ekit.LT {
+								p-- // two connections x two requests each: the full bound only level-triggered in quick
 							}
 							add(cfg{mode: m, exec: e, hist: h, cut: cut, respLen: rl, k: k, p: p})
 						}
@@ -430,7 +455,7 @@ func main() {
 		Rule: "one scenario = epoll mode x server executor (inline, goroutine-per-call, default task pool) x request history per connection (1-3 requests, HTTP/1.0 and 1.1, Connection absent/close/keep-alive, with and without body, pipelined or split at an offset, one or two connections) x response size (10 B, 70000 B) x socket capacity (unbounded, 4096 B); every interleaving of clients, poller, executor threads and drains within the preemption bound on the real nbhttp + nbio code; non-trivial = at least one response was produced. SECOND PART (scenario name \"blocking-modes/real-sockets/history-enumeration\", a different and weaker kind of claim): bounded-exhaustive enumeration of HISTORIES, free-running schedule - one case = I/O mode (IOModBlocking, IOModMixed with MaxBlockingOnline 1, IOModMixed with every connection of the history in the poller half, IOModNonBlocking as control) x server-side socket send buffer (default, 4096 B when the history has a 70000-byte response) x every event sequence of length <= 4 (thorough: 5) on <= 2 real AF_UNIX socket-pair connections over {open, GET keep-alive, GET HTTP/1.0, GET Connection: close, 70000-byte response keep-alive / close, POST, two pipelined keep-alive GETs, keep-alive GET + closing GET pipelined, request head with the body withheld, the withheld body, peer close}; each case is executed ONCE on the real code with real goroutines and the real kernel, schedules are not enumerated",
 		Assumptions: []string{
 			"covered: IOModNonBlocking, plain text, all three epoll modes. NOT covered by this technique: IOModBlocking / IOModMixed data paths and TLS (they need real *net.TCPConn / llib TLS on real synchronisation, invisible to the cooperative scheduler); their upper layers (parser, processor, response, job queue) are the same code explored here and in C05-C09",
-			"the connection-close decision is judged on the restricted forms only (HTTP/1.0 without keep-alive, 'Connection: close'); token lists are C07's subject",
+			"the connection-close decision is judged on HTTP/1.0 without keep-alive, 'Connection: close', and on a few forms in which the decisive option is not the first one (several Connection lines, an option list); the full header grammar is C07's subject",
 			"independent client parser: net/http ReadResponse",
 			"second part (blocking / mixed modes on real sockets): EVERY HISTORY up to the depth is run, NOT every schedule. Oracle per connection: one response per request, in request order, with the request's own tag and the full body (net/http ReadResponse), the handler ran exactly once per answered request, nothing tagged for another connection, end of stream after a closing request and no end of stream after keep-alive requests (an end of stream that is read is a fact; 'still open' is never inferred from a timeout), no error in nbio's log. A response that has not arrived after 30 s on an open, otherwise idle connection counts as missing. Signatures of connections served by a reader goroutine carry 'io=blocking'; connections served by the poller reuse the signatures of the scheduled part",
 			"second part, IOModMixed: which half serves a connection is judged against the rule documented at IOModMixed / lmux (blocking half while fewer than MaxBlockingOnline connections are online there, poller otherwise); the listener mux's counter is read through a hook accessor at quiet points (it is the `decrease` accounting). The property statement only names the mixed mode; without this a mixed engine that serves everything from one half would pass silently",
